@@ -1270,6 +1270,11 @@ func genMap[T any](c *simkit.Choices, el func(*simkit.Choices) T) map[string]T {
 	case 1:
 		return map[string]T{}
 	}
+	if c.N(8) == 0 {
+		// a key longer than the usual inline buffers and interning limits
+		n := []int{65, 66, 70, 100, 125, 128, 129, 200, 257, 300}[c.N(10)]
+		return map[string]T{strings.Repeat(string(rune('a'+c.N(26))), n) + GenKey(c, 4): el(c)}
+	}
 	return map[string]T{GenKey(c, 12): el(c)}
 }
 
